@@ -23,7 +23,9 @@ import (
 //
 // ops (grammar also at the top of lean/Thanos/Driver/Misc.lean):
 //   rules.match <labels> <sets>                         -> true | false          (rules.matches via hook)
-//   rules.rules <repl> <sets> <groups>                  -> groups (canonical) | - (GRPCClient.Rules, fake RulesServer)
+//   rules.rules <repl> <sels> <groups>                  -> groups (canonical) | - | err (GRPCClient.Rules, fake RulesServer)
+//     sels   = sel{;sel} | -        one match[] string per sel, in order: sel = set (plain spelling) | w<set> (the same
+//                                   set spelled with extra white space) | E (the empty string: does not parse)
 //     labels = lab{+lab} | -        lab = hexname=hexvalue=cls      cls = p|t|x|e|n (what text/template makes of the value, see c45Class)
 //     sets   = set{;set} | -        set = m{,m} | e (the empty set)
 //     m      = hexname:typ:hexvalue:tbl    typ = eq|ne|re|nre
@@ -280,11 +282,18 @@ func (s *c45Server) Rules(_ *rulespb.RulesRequest, srv rulespb.Rules_RulesServer
 	return nil
 }
 
-func c45Selector(set []c45Matcher) string {
+func c45Selector(set []c45Matcher, spaced bool) string {
 	var parts []string
 	for _, m := range set {
 		op := map[labels.MatchType]string{labels.MatchEqual: "=", labels.MatchNotEqual: "!=", labels.MatchRegexp: "=~", labels.MatchNotRegexp: "!~"}[m.typ]
-		parts = append(parts, m.name+op+strconv.Quote(m.value))
+		if spaced {
+			parts = append(parts, " "+m.name+"  "+op+" "+strconv.Quote(m.value)+" ")
+		} else {
+			parts = append(parts, m.name+op+strconv.Quote(m.value))
+		}
+	}
+	if spaced {
+		return " { " + strings.Join(parts, ",") + " } "
 	}
 	return "{" + strings.Join(parts, ",") + "}"
 }
@@ -363,7 +372,23 @@ func execC45(c *hlib.Ctx, tok []string) string {
 			}
 			repl = append(repl, string(b))
 		}
-		sets, ok1 := c45ParseSets(tok[2])
+		// one match[] string per sel: plain, w = spelled with extra white space, E = the empty string
+		var selToks []string
+		var spaced, emptyStr []bool
+		for _, t := range hlib.Split(tok[2], ";") {
+			switch {
+			case t == "E":
+				emptyStr, spaced = append(emptyStr, true), append(spaced, false)
+				t = "e"
+			case strings.HasPrefix(t, "w"):
+				emptyStr, spaced = append(emptyStr, false), append(spaced, true)
+				t = t[1:]
+			default:
+				emptyStr, spaced = append(emptyStr, false), append(spaced, false)
+			}
+			selToks = append(selToks, t)
+		}
+		sets, ok1 := c45ParseSets(hlib.Join(selToks, ";"))
 		groups, ok2 := c45ParseGroups(tok[3])
 		if !ok1 || !ok2 {
 			return "bad-op"
@@ -394,12 +419,24 @@ func execC45(c *hlib.Ctx, tok []string) string {
 			srv.groups = append(srv.groups, pg)
 		}
 		req := &rulespb.RulesRequest{}
-		for _, s := range sets {
-			req.MatcherString = append(req.MatcherString, c45Selector(s))
+		anyEmptyStr := false
+		for i, s := range sets {
+			if emptyStr[i] {
+				req.MatcherString = append(req.MatcherString, "")
+				anyEmptyStr = true
+				continue
+			}
+			req.MatcherString = append(req.MatcherString, c45Selector(s, spaced[i]))
 		}
 		res, _, err := rules.NewGRPCClientWithDedup(srv, repl).Rules(context.Background(), req)
 		if err != nil {
+			if !anyEmptyStr {
+				c.Violation("request-fails", "Rules fails although every match[] string is a valid selector: "+err.Error())
+			}
 			return "err"
+		}
+		if anyEmptyStr {
+			c.Violation("unparsable-selector-accepted", "Rules succeeds although a match[] string is empty")
 		}
 		var outg []string
 		for _, g := range res.Groups {
@@ -689,7 +726,54 @@ func genC45(c *hlib.Ctx) {
 		c.Count(fmt.Sprintf("rules:sets=%d", nsets))
 		c.Count(fmt.Sprintf("rules:repl=%d", nrepl))
 		c.Count(fmt.Sprintf("rules:rules=%d", total/4*4))
-		c.Do("rules.rules "+hlib.Join(mapHex(repl), ",")+" "+c45GenSets(c, universe, false, nsets)+" "+hlib.Join(sh, "|"), total > 0)
+		sels := hlib.Split(c45GenSets(c, universe, false, nsets), ";")
+		// the request strings: repeated selectors (byte-identical twice / three times, the same set with
+		// extra white space, the same set with its matchers in another order), the empty set {} and the
+		// empty string as separate cases
+		if len(sels) > 0 {
+			switch r.Intn(12) {
+			case 0, 1:
+				k := r.Intn(len(sels))
+				sels = append(sels, sels[k])
+				c.Count("rules:selector-repeated-twice")
+			case 2:
+				k := r.Intn(len(sels))
+				sels = append(sels, sels[k], sels[k])
+				c.Count("rules:selector-repeated-three-times")
+			case 3:
+				k := r.Intn(len(sels))
+				sels = append(sels, "w"+sels[k])
+				c.Count("rules:selector-repeated-with-white-space")
+			case 4:
+				k := r.Intn(len(sels))
+				ms := strings.Split(sels[k], ",")
+				for a, b := 0, len(ms)-1; a < b; a, b = a+1, b-1 {
+					ms[a], ms[b] = ms[b], ms[a]
+				}
+				sels = append(sels, strings.Join(ms, ","))
+				c.Count("rules:selector-repeated-other-matcher-order")
+			case 5:
+				sels = append(sels, "e")
+				c.Count("rules:empty-set-selector")
+			case 6:
+				if r.Chance(1, 2) {
+					sels = append(sels, "E")
+					c.Count("rules:empty-string-selector")
+				}
+			}
+			if len(sels) > 1 {
+				p := r.Perm(len(sels))
+				sh2 := make([]string, len(sels))
+				for i, j := range p {
+					sh2[i] = sels[j]
+				}
+				sels = sh2
+			}
+		} else if r.Chance(1, 20) {
+			sels = []string{r.Pick([]string{"e", "E"})}
+			c.Count("rules:only-empty-selector")
+		}
+		c.Do("rules.rules "+hlib.Join(mapHex(repl), ",")+" "+hlib.Join(sels, ";")+" "+hlib.Join(sh, "|"), total > 0)
 	}
 }
 
